@@ -621,4 +621,38 @@ def fam_odd(tier):
              inputs=[cps(s) for s in ['"\\é', 'éßk', 'ÉSSK', 'éßK', "'", "\\", "(", "a", "\t\r\nA", "abcabcabcabcabcabcabc",
                                       "a b c a b c a b c a b c a b c a b c a b", "a a", "aa", "é😀", "ÿ😃", "tt", "ss", "ababcab", "bbc", "cacab",
                                       "a\u00a0b", "\" \\ é"]])
-    return [g]
+    # the generated rules::EOI used as an entry point (with and without skip rules defined)
+    e1 = dict(id="odd1", text='a = { "a"* }\nz = { "z" ~ EOI }\nWHITESPACE = _{ " " }\nCOMMENT = _{ "#" }', alphabet=cps("a #"), maxlen=2, entries=["EOI", "a"])
+    e2 = dict(id="odd2", text='a = @{ "a"* ~ EOI }\nb = { !EOI ~ ANY ~ EOI }', alphabet=cps("a "), maxlen=2, entries=["EOI", "a", "b"])
+    return [g, e1, e2]
+
+
+def fam_memo(tier):
+    """The same rule tried again at the same offset after a failed attempt, under another stack / another atomicity: the second try
+    must be made afresh (a failed attempt leaves no trace, not even a remembered verdict). tail rules are stack-dependent, a
+    sub-rule fails further right than the start of the tail so that the retry lies behind the furthest failure."""
+    out = []
+    tails = ['POP ~ bang', 'PEEK ~ bang', 'PEEK_ALL ~ bang', 'PEEK[0..1] ~ bang', 'PEEK[-1..] ~ "b"? ~ bang', 'DROP ~ ("ab" ~ bang | "b" ~ "!" ~ "!")']
+    kinds = ["normal", "atomic", "compound", "nonatomic", "normal", "compound"]
+    cons = [('((PUSH("a") ~ "b" ~ %s) | (PUSH("ab") ~ %s))', "normal"), ('(PUSH("a") ~ "b" ~ %s)? ~ PUSH("ab") ~ %s', "normal"),
+            ('(PUSH("a") ~ "b" ~ %s)* ~ PUSH("ab") ~ %s', "compound"), ('!(PUSH("a") ~ "b" ~ %s) ~ PUSH("ab") ~ %s', "normal"),
+            ('(&(PUSH("a") ~ "b" ~ %s))? ~ PUSH("ab") ~ %s', "normal"), ('PUSH("a") ~ ("b" ~ %s | DROP ~ "b" ~ PUSH("ab") ~ %s)', "normal"),
+            ('(PUSH("a") ~ "b" ~ %s | PUSH("a") ~ PUSH("b") ~ %s ~ DROP?) ~ ANY*', "atomic"),
+            # same rule, same offset, other atomicity / other skipping context
+            ('(atm | PUSH("ab") ~ %s)', "normal")]
+    for ti, t in enumerate(tails):
+        lines = [rule("tail", t, kinds[ti]), rule("bang", '"!"', "normal"), rule("atm", 'PUSH("a") ~ "b" ~ tail ~ "?"', "atomic")]
+        if ti % 2:
+            lines.append(WS_SP)
+        for k, (c, kd) in enumerate(cons):
+            lines.append(rule("r%d" % k, c.replace("%s", "tail"), kd))
+        g = dict(id="mm%d" % ti, text="\n".join(lines), alphabet=cps("ab! "), maxlen=0, entries=["r%d" % k for k in range(len(cons))])
+        ins = set()
+        for pre in ["ab", "a b", "abab", "ab ab", "a", "b", ""]:
+            for mid in ["ab", "a", "b", "abb", "", "ab ", " ab", "ba"]:
+                for suf in ["!", "", "!!", " !", "b!", "?", "!?", "a!"]:
+                    ins.add(pre + mid + suf)
+        g["inputs"] = [cps(s) for s in sorted(ins)]
+        out.append(g)
+    read = peg.pest_read(out, "mm_f")
+    return [g for g, r in zip(out, read) if r.get("valid")]
